@@ -206,7 +206,7 @@ def c19_jobs(tier):
         g = keep
     hs = names("c19", ["c19_seek_empty_a16", "c19_seek_len5_a16", "c19_seek_len17_a64"], bound="all pos: usize x all SeekFrom (u64/i64)", what="seek vs std::io::Cursor")
     hs += names("c19", g, bound="(len,pos,n) grid point, byte contents symbolic", what="one write/read step vs the real std::io::Cursor + representation invariant", covers="none")
-    hs += names("c19", ["c19_history_a16"], bound="write 3, set_position <= 20, write 2, seek End(-8..8), read 4", what="short history vs std", covers="none")
+    hs += names("c19", ["c19_history_p1", "c19_history_p3", "c19_history_p17"], bound="write 3, set_position P, write 2, seek End(-8..8 symbolic), read 4", what="short history vs std", covers="none")
     hs += [twin("c19::c19_twin_reach")]
     return [dict(harnesses=hs, timeout=600 if tier == "quick" else 1800)]
 
@@ -295,8 +295,25 @@ def c05_jobs(tier):
     return [dict(harnesses=hs, timeout=900 if tier == "quick" else 2400)]
 
 
-PLAN["C05"] = dict(quick=lambda seed: c05_jobs("quick"), thorough=lambda seed: c05_jobs("thorough"),
-                   bounds=dict(RT_BOUNDS, definitions="31 derived definitions of harness/src/universe.rs + the grammar corners of c05.rs (compiled by the Kani build on every run: compilation success is observed)"),
+def c05_generated(seed, count=14):
+    """Seeded sample of the derive grammar (bin/gen_types.py): definitions + harnesses written into the work area."""
+    import subprocess, sys
+    work = _os.environ.get("VERIF_WORK", _os.path.join(_os.path.dirname(_HERE), ".work"))
+    gd = _os.path.join(work, "C05-gen")
+    _os.makedirs(gd, exist_ok=True)
+    rs, js = _os.path.join(gd, f"gen_{seed}.rs"), _os.path.join(gd, f"gen_{seed}.json")
+    subprocess.check_call([sys.executable, _os.path.join(_HERE, "gen_types.py"), str(seed), str(count), rs, js], stdout=subprocess.DEVNULL)
+    hs = _json.load(open(js))["harnesses"]
+    return dict(tag="gen", env={"VH_GEN_FILE": rs}, timeout=1200,
+                harnesses=[H("c05gen::" + h, bound=f"generated definition (seed {seed}): all field values, every variant", what="derived code compiles and round-trips; DeserType ascribed", role="c05/generated", covers="all") for h in hs])
+
+
+def c05_thorough(seed):
+    return c05_jobs("thorough") + [c05_generated(seed)]
+
+
+PLAN["C05"] = dict(quick=lambda seed: c05_jobs("quick"), thorough=c05_thorough,
+                   bounds=dict(RT_BOUNDS, definitions="31 derived definitions of harness/src/universe.rs + the grammar corners of c05.rs (compiled by the Kani build on every run: compilation success is observed); thorough adds 14 definitions SAMPLED from the grammar by bin/gen_types.py with VERIF_SEED"),
                    outside=["every definition not listed; macro robustness on unsupported syntax", "a where-clause bound on a *replaced* type parameter and a parameter that is both a field type and mentioned inside another field's type are rejected by rustc (grammar boundary, compile-time, see DESIGN.md)"],
                    stubs=RT_STUBS, assumptions=["the exact DeserType is asserted at type level in cases.rs (`let e: &DeepS<&[u16]> = e;`): a wrong substitution is a build failure of the harness crate, reported as inconclusive build error with the compiler message"])
 
@@ -336,7 +353,8 @@ C11_FULL = _fns("c11.rs", r"\b(c11_full_\w+) =")
 C11_IO = _fns("c11.rs", r"\b(c11_io_\w+) =")
 C11_EPS = _fns("c11.rs", r"\b(c11_eps_\w+) =")
 C11_EXACT = _fns("c11.rs", r"\b(c11_exact_\w+) =")
-C11_HDR = _fns("c11.rs", r"\b(c11_hdr_\w+) =")
+C11_CUT = _fns("c11_cuts.rs", r"\b(c11_cut_\w+) =")
+C11_HDRK = _fns("c11_cuts.rs", r"\b(c11_hdrk_\w+) =")
 
 
 def c11_jobs(tier):
@@ -344,11 +362,14 @@ def c11_jobs(tier):
     full = C11_FULL[:8] if q else C11_FULL
     eps = C11_EPS[:9] if q else C11_EPS
     ex = C11_EXACT[:4] if q else C11_EXACT
-    hdr = C11_HDR[:2] if q else C11_HDR
+    pick = lambda n: any(n.endswith("_k%d" % k) for k in (0, 7, 9, 12, 17, 28, 36, 40, 43))
+    cut = [c for c in C11_CUT if pick(c)] if q else C11_CUT
+    hdr = [c for c in C11_HDRK if "_u32_" in c and pick(c)] if q else C11_HDRK
     io = C11_IO[:4] if q else C11_IO
-    hs = names("c11", full + [h for h in hdr if h.endswith("_full")], bound="every cut point k < len (symbolic), values symbolic", what="Err(ReadError), never a value")
+    hs = names("c11", full, bound="every cut point k < len (symbolic), values symbolic", what="Err(ReadError), never a value")
+    hs += names("c11", cut + [h for h in hdr if "_full_" in h], bound="cut point K (instance constant; every K in thorough), values symbolic", what="Err(ReadError), never a value (deep types / public entry points with header)", covers="none")
     hs += names("c11", io, bound="every cut point k in [PRE, len) (symbolic) incl. inside (trailing) alignment padding; reader = byte slice through the blanket io::Read impl", what="Err(ReadError), never a value")
-    hs += [H("c11::" + n, bound="every cut point k < len (symbolic), values symbolic", what="never a value; only bounds-check panics tolerated", allow=C11_ALLOW, covers="none") for n in eps + [h for h in hdr if h.endswith("_eps")]]
+    hs += [H("c11::" + n, bound="every cut point k < len (symbolic), values symbolic", what="never a value; only bounds-check panics tolerated", allow=C11_ALLOW, covers="none") for n in eps + [h for h in hdr if "_eps_" in h]]
     hs += [H("c11::" + n, bound="exact-size heap copy of the prefix (K bytes): any read outside it is a pointer-check failure", what="never a value, no out-of-object access", allow=C11_ALLOW, covers="none") for n in ex]
     hs += [twin("c11::c11_twin_reach")]
     return [dict(harnesses=hs, timeout=900 if q else 2400)]
@@ -360,11 +381,13 @@ PLAN["C11"] = dict(quick=lambda seed: c11_jobs("quick"), thorough=lambda seed: c
                    stubs=RT_STUBS, assumptions=["for ε-copy the property allows an error or a bounds-check panic: failed checks whose function/description is a slice-index or bounds-check panic are tolerated, every other failed check (pointer, arithmetic, other panics, the Ok assertion) is a violation"])
 
 C14_FAIL = _fns("c14.rs", r"\b(c14_fail_\w+):")
+C14_CALL = _fns("c14_calls.rs", r"\b(c14_call_\w+):")
 PLAN["C14"] = dict(
     quick=lambda seed: [dict(harnesses=names("c14", C14_FAIL[:9], bound="failure position k in 0..=len (symbolic), values symbolic", what="(A) value == original iff no failure, else ReadError; partial values dropped soundly")
+                             + names("c14", [c for c in C14_CALL if c.endswith(("_j1", "_j4", "_j10"))], bound="reader fails at its J-th read_exact call (instance constant); values symbolic", what="(A') deep types: value iff no failure, else ReadError; partial values dropped soundly", covers="none")
                              + names("c14", ["c14_std_read_exact_4", "c14_chunky_u32", "c14_chunky_optu8"], bound="<= 6 read calls: symbolic chunk sizes, Interrupted, early EOF", what="(B)/(C) fragmentation does not change the bytes/value; early EOF is ReadError")
                              + [twin("c14::c14_twin_reach")], timeout=900)],
-    thorough=lambda seed: [dict(harnesses=names("c14", C14_FAIL, bound="failure position symbolic", what="(A)") + names("c14", ["c14_std_read_exact_4", "c14_std_read_exact_8", "c14_chunky_u32", "c14_chunky_optu8"], bound="<= 6 read calls", what="(B)/(C)")
+    thorough=lambda seed: [dict(harnesses=names("c14", C14_FAIL, bound="failure position symbolic", what="(A)") + names("c14", C14_CALL, bound="reader fails at its J-th call, every J", what="(A') deep types", covers="none") + names("c14", ["c14_std_read_exact_4", "c14_std_read_exact_8", "c14_chunky_u32", "c14_chunky_optu8"], bound="<= 6 read calls", what="(B)/(C)")
                                 + [twin("c14::c14_twin_reach")], timeout=2400)],
     bounds=dict(RT_BOUNDS, fail_at="every k in 0..=len", fragmentation="requests <= 8 bytes, <= 6 read calls per harness"),
     outside=COMMON_OUTSIDE + ["fragmentation of long streams in one query (decomposed at the ReadNoStd trait boundary: (A)+(B) compose because the deserializers call the reader only through read_exact - an argument, not a solver result)", "[T;N] deep arrays leak already-built items on mid-array failure (leak, not corruption)"],
